@@ -75,9 +75,9 @@ setter_order only.
 Out of reach of the stated relations: a wrong dependence of the Eshelby tensor on the semi-axes that is consistent
 with all symmetries and scalings above (e.g. another degree-1 homogeneous, permutation-covariant function of the
 semi-axes in place of beta) - the statement gives closed forms for the sphere only.
-The harness keeps at most 3 violations per monitor and case; inside a case the injected rule is evaluated first and
-the least resolved shipped order last, so that a failure of the tensor algebra is never crowded out by the recorded
-node-table findings.
+The harness keeps a bounded number of violations per monitor and case (3 per mech, 40 per monitor); inside a case the
+injected rule is evaluated first and the least resolved shipped order last, so that a failure of the tensor algebra is
+never crowded out by the recorded node-table findings.
 """
 import itertools
 import math
@@ -128,8 +128,8 @@ PERMUTATIONS = {'rot90-about-z': np.array([[0., -1, 0], [1, 0, 0], [0, 0, 1]]),
                 'cyclic-xyz': np.array([[0., 0, 1], [1, 0, 0], [0, 1, 0]])}
 ORDERS = {'repo-low': ('low', 53), 'repo-mid': ('mid', 83), 'repo-high': ('high', 131)}
 QUADS = ['repo-low', 'repo-mid', 'repo-high', 'gl']
-# evaluation order inside a case: the harness keeps at most 3 violations per monitor and case, so the quadrature whose
-# failure would be new information (injected rule = tensor algebra) comes first, the least resolved shipped order last
+# evaluation order inside a case: the harness keeps a bounded number of violations per monitor and case, so the quadrature
+# whose failure would be new information (injected rule = tensor algebra) comes first, the least resolved shipped order last
 QUADS_EVAL = ['gl', 'repo-high', 'repo-mid', 'repo-low']
 VOIGT_PAIRS = [(0, 0), (1, 1), (2, 2), (1, 2), (0, 2), (0, 1)]
 ORBIT_SIZE = {'A1': 6, 'A2': 12, 'A3': 8, 'B': 24, 'C': 24, 'D': 48}
